@@ -115,6 +115,26 @@ LitMachine(which) ==
    start |-> Target("Cnt", <<EVar("m"), EVar("n")>>), arms |-> arms \o <<DoneArm>>]
 LitNames == {"lit", "litrev"}
 
+(* ------------------------------------------------------------ scope machines *)
+(* arms that READ A MACHINE ARGUMENT, listed after arms whose patterns bind a variable of the same name (and are     *)
+(* tried and rejected first): an arm sees the machine's arguments and its own bindings, nothing of other arms          *)
+ScopeMachine(which) ==
+  CASE which = "scale" ->     \* n * m by repeated addition; the first arm's pattern variable n shadows the argument n
+         [name |-> "Scale", inputs |-> <<"n", "m">>, inkinds |-> <<"u64", "u64">>, outkind |-> "u64",
+          declared |-> <<Decl("Loop", <<"u64", "u64">>), DoneDecl>>,
+          start |-> Target("Loop", <<L(0), EVar("m")>>),
+          arms |-> <<TransArm("Loop", <<PV("n"), PL(0)>>, Done(EVar("n"))),
+                     TransArm("Loop", <<PV("acc"), PV("k")>>, Target("Loop", <<Add(EVar("acc"), EVar("n")), Sub(EVar("k"), L(1))>>)),
+                     DoneArm>>]
+    [] which = "offset" ->    \* the output arm (pattern variable named like the argument n) is listed BEFORE the arm that reads n
+         [name |-> "Offset", inputs |-> <<"n", "m">>, inkinds |-> <<"u64", "u64">>, outkind |-> "u64",
+          declared |-> <<Decl("Walk", <<"u64">>), DoneDecl>>,
+          start |-> Target("Walk", <<EVar("m")>>),
+          arms |-> <<OutArm("Done", <<PV("n")>>, EVar("n")),
+                     GuardArm("Walk", <<PV("i")>>, <<GTrans(Gt(EVar("i"), 0), Target("Walk", <<Sub(EVar("i"), L(1))>>)),
+                                                    GTrans(Eq(EVar("i"), 0), Done(Add(EVar("n"), L(7))))>>)>>]
+ScopeNames == {"scale", "offset"}
+
 (* ------------------------------------------- machines of the repository's tests and documentation *)
 V(x) == EVar(x)
 RepoMachine(which) ==
@@ -199,7 +219,7 @@ Revs(ns) == IF WithRev /\ ns <= 2 THEN {FALSE, TRUE} ELSE {FALSE}
 Partials ==
        UNION {UNION {{[Dummy EXCEPT !.stage = 1, !.g = [nf |-> nf, ns |-> ns, start |-> st, sp |-> <<s1>>, rev |-> FALSE]]
                        : st \in 1..ns, s1 \in StateSpecs(ns, KindsFor(ns))} : ns \in {x \in NS : x < 3 \/ nf \in NF3}} : nf \in NF}
-  \cup {[Dummy EXCEPT !.stage = 1, !.fam = f] : f \in {"arr", "lit", "ill", "repo"}}
+  \cup {[Dummy EXCEPT !.stage = 1, !.fam = f] : f \in {"arr", "lit", "ill", "repo", "scope"}}
 RECURSIVE SpecSeqs(_, _, _)
 SpecSeqs(S, ns, kinds) == IF \A s \in S : Len(s) = ns THEN S
                           ELSE SpecSeqs({Append(s, x) : s \in S, x \in StateSpecs(ns, kinds)}, ns, kinds)
@@ -209,6 +229,7 @@ Completes(k) ==
     [] k.fam = "lit" -> {[k EXCEPT !.stage = 2, !.which = w] : w \in LitNames}
     [] k.fam = "ill" -> {[k EXCEPT !.stage = 2, !.which = w] : w \in IllNames}
     [] k.fam = "repo" -> {[k EXCEPT !.stage = 2, !.which = w] : w \in RepoNames}
+    [] k.fam = "scope" -> {[k EXCEPT !.stage = 2, !.which = w] : w \in ScopeNames}
 
 Init == cs = Dummy
 Next == \/ cs.stage = 0 /\ cs' \in Partials
@@ -218,10 +239,11 @@ Done2 == cs.stage = 2
 
 MachineOf(k) == CASE k.fam = "gen" -> GenMachine(k.g) [] k.fam = "arr" -> ArrMachine(k.which)
                   [] k.fam = "lit" -> LitMachine(k.which) [] k.fam = "ill" -> IllMachine(k.which)
-                  [] k.fam = "repo" -> RepoMachine(k.which)
+                  [] k.fam = "repo" -> RepoMachine(k.which) [] k.fam = "scope" -> ScopeMachine(k.which)
 InputsOf(k) == CASE k.fam = "gen" -> GenInputs(k.g.nf) [] k.fam = "arr" -> ArrInputs
                  [] k.fam = "lit" -> [i \in 1..8 |-> <<NV((i - 1) % 4), NV(5 * ((i - 1) \div 4))>>] [] k.fam = "ill" -> IllInputs
                  [] k.fam = "repo" -> RepoInputs(k.which)
+                 [] k.fam = "scope" -> [i \in 1..12 |-> <<NV((i - 1) % 4), NV(<<0, 2, 3>>[((i - 1) \div 4) + 1])>>]
 InputSet(k) == {InputsOf(k)[i] : i \in 1..Len(InputsOf(k))}
 
 KindOf(v) == IF v.t = "n" THEN "u64" ELSE "[u64]"
